@@ -112,9 +112,9 @@ structure Verdict where
 
 /-- The property evaluated on what the implementation printed for a chain of `n` handlers whose
 expected (literal-reading) order of ids is `want` when `passThrough` (no script aborts). -/
-def judge (n : Nat) (impl : List String) (wrapCls : Bool) (longCls : Bool) : Verdict :=
+def judge (n : Nat) (impl : List String) (longCls : Bool) : Verdict :=
   match impl.getLast? with
-  | some "PANIC" => ⟨false, "the chain panicked", if wrapCls then "index-wrap" else ""⟩
+  | some "PANIC" => ⟨false, "the chain panicked", ""⟩
   | some "LOOP" => ⟨false, "the chain does not terminate", if longCls then "long-chain" else ""⟩
   | some last =>
     if last.startsWith "ST" then
@@ -135,7 +135,7 @@ def lenClass (n : Nat) : String :=
 
 def outcomeTag (r : R) : String :=
   match r.2 with
-  | .ok i => if i ≥ abortIndex then (if r.1.any isAbort then "ab" else "hi") else "ok"
+  | .ok i => if i == 127 then "sat" else if i ≥ abortIndex then (if r.1.any isAbort then "ab" else "hi") else "ok"
   | .error .fuel => "loop"
   | .error _ => "panic"
 
@@ -161,8 +161,7 @@ def handle : Handler
     let hs ← scs.mapM parseScript
     let r := run hs
     let ids := List.range hs.length
-    let wraps := !noWrap hs
-    let v := judge hs.length impl wraps (decide (hs.length > 63))
+    let v := judge hs.length impl (decide (hs.length > 63))
     let shape := if hs.length ≤ 2 && hs.all (fun s => s.length ≤ 2) then String.intercalate "." (hs.map scriptClass) else
       (if hs.any (·.contains .abort) then "a" else "") ++ (if hs.any (fun s => nexts s ≥ 2) then "nn" else "")
       ++ (if hs.any (·.contains .probe) then "p" else "")
@@ -185,8 +184,7 @@ def handle : Handler
       let (chain, st) := e.select method g k noHost
       let hs := chain.map (lookupScript scripts)
       let r := run hs
-      let wraps := !noWrap hs
-      let v := judge hs.length impl wraps false
+      let v := judge hs.length impl false
       -- group order, literal reading: with scripts that never abort, the ids entered are exactly
       -- everything attached so far to each group on the path (outermost first), then the route's own
       let regAt := ops.findIdx? fun op => match op with
@@ -194,7 +192,7 @@ def handle : Handler
         | _ => false
       let before := ops.take (regAt.getD ops.length)
       let ls := shadowOf before
-      let passThrough := hs.all (fun sc => !sc.any (fun a => a != .next && a != .probe)) && !wraps
+      let passThrough := hs.all (fun sc => !sc.any (fun a => a != .next && a != .probe))
       let uac := !noUseAfterChild shadowInit before
       let regHs := ops.findSome? fun op => match op with
         | .handle g' m' k' hs' => if g' == g && m' == method && k' == k then some hs' else none
